@@ -215,8 +215,10 @@ pub fn c15_oracle(d: &Dg, agg: &Agg, nq: usize, nx: usize, evals: &mut u64) -> O
         return Some(("quantile(1) != max".into(), format!("quantile(1) = {} but max() = {} (tolerance {:e}; centroids (sum,count): {:?})", qs[nq].1, mx, tau, cents)));
     }
     // cdf grid over [min-1, max+1]
-    let lo = mn - 1.0 - 0.1 * (mx - mn);
-    let hi = mx + 1.0 + 0.1 * (mx - mn);
+    // margin of one unit around the data; for data of extreme magnitude the unit is the power of two below the data scale
+    let unit = if scale > 0.0 && !(1e-100..=1e100).contains(&scale) { f64::from_bits(scale.to_bits() & 0x7ff0_0000_0000_0000) } else { 1.0 };
+    let lo = mn - unit - 0.1 * (mx - mn);
+    let hi = mx + unit + 0.1 * (mx - mn);
     let mut prevc = 0.0f64;
     for j in 0..=nx {
         let x = lo + (hi - lo) * j as f64 / nx as f64;
@@ -294,6 +296,8 @@ pub struct TSt {
     /// every weight of the alphabet is multiplied by this power of two (1.0 = as written); unit
     /// inserts become insert_weighted(v, wscale)
     pub wscale: f64,
+    /// every value of the alphabet is multiplied by this power of two (1.0 = as written)
+    pub vscale: f64,
 }
 
 /// weight scales for the extreme-magnitude trees: exact powers of two, far enough from the
@@ -319,15 +323,17 @@ pub fn apply(st: &mut TSt, o: u16, check16: bool) -> Result<Option<(String, Stri
     let o = o as usize;
     let r = mccore::panics::catch(|| {
         if o < 5 {
+            let v = VALUES[o] * st.vscale;
             if st.wscale == 1.0 {
-                st.d.insert(VALUES[o]);
+                st.d.insert(v);
             } else {
-                st.d.insert_weighted(VALUES[o], st.wscale);
+                st.d.insert_weighted(v, st.wscale);
             }
-            st.agg.add(VALUES[o], st.wscale);
+            st.agg.add(v, st.wscale);
             None
         } else if o < 5 + N_W {
             let (v, w) = WEIGHTED[o - 5];
+            let v = v * st.vscale;
             let w = w * st.wscale;
             let before = if w == 0.0 && check16 { Some(snapshot(&st.d)) } else { None };
             st.d.insert_weighted(v, w);
@@ -402,7 +408,11 @@ pub fn tree(kind: usize, delta: f64, backlog: usize, depth: usize, mode: u32, nq
 }
 
 pub fn tree_scaled(kind: usize, delta: f64, backlog: usize, depth: usize, mode: u32, nq: usize, wscale: f64) -> TreeOut {
-    let init = TSt { d: Dg::new(kind, delta, backlog), agg: Agg::default(), wscale };
+    tree_scaled2(kind, delta, backlog, depth, mode, nq, wscale, 1.0)
+}
+
+pub fn tree_scaled2(kind: usize, delta: f64, backlog: usize, depth: usize, mode: u32, nq: usize, wscale: f64, vscale: f64) -> TreeOut {
+    let init = TSt { d: Dg::new(kind, delta, backlog), agg: Agg::default(), wscale, vscale };
     let mut out = TreeOut { nodes: 0, evals: 0, viols: vec![] };
     // iterative deepening so that the first counterexample is a shortest one
     for dep in 1..=depth {
